@@ -28,7 +28,8 @@ P = "TLX.Props.C02Pipeline."
 THEOREMS = [P + t for t in (
     "quic_conn_never_raises", "quic_machine_never_raises", "quic_run_never_raises", "quic_out_bytes_from_frames",
     "quic_out_addressed", "handleRecord_err_indep", "initial_keys_never_raise", "key_update_never_raises",
-    "tls_no_raise_rtt1", "tls_quiet_rtt1", "one_rtt_crypto_keeps_keys", "tls_quiet_rtt1_counterexample")]
+    "tls_no_raise_rtt1", "tls_quiet_rtt1", "one_rtt_crypto_keeps_keys", "tls_quiet_rtt1_counterexample",
+    "after_tls_hp_exact", "after_tls_hp_unchanged", "decryptPacket_keeps", "feedPre_verOk", "handleTurn_verOk")]
 POINT = "run(): whole QUIC export, real tool vs TLX.QuicPipeline (toy AEAD + toy hp mask, real key schedule)"
 
 
